@@ -53,6 +53,13 @@ var (
 	curStart atomic.Int64
 )
 
+// Heartbeat tells the hang detector that a long case (one that runs many executions) is making progress.
+func Heartbeat() {
+	if curStart.Load() != 0 {
+		curStart.Store(time.Now().UnixNano())
+	}
+}
+
 // RunWorker executes shard k of n of the property and prints the Rec as JSON.
 func RunWorker(p *Prop, tier string, k, n int, trace bool, deadline time.Time) {
 	r := NewRec()
